@@ -16,7 +16,7 @@
 (*                                                                         *)
 (* Line format: [ev, k, ph, en, units, len, tot, nz], every field always   *)
 (* present.  ev \in new(k = limit, ph = hour % 24, en) | update(k = cat) | *)
-(* tick(k) | flush | close | open | limit(k) | enable(k) | clear | read.   *)
+(* tick(k) | flush | flushfail | close | open | limit(k) | enable(k) | clear | read.   *)
 (***************************************************************************)
 EXTENDS Stats
 
@@ -38,6 +38,7 @@ Apply(e) ==
     \/ e.ev = "update" /\ DoUpdate(e.k)
     \/ e.ev = "tick"   /\ DoTick(e.k)
     \/ e.ev = "flush"  /\ DoFlush
+    \/ e.ev = "flushfail" /\ DoFlushFails
     \/ e.ev = "close"  /\ DoClose
     \/ e.ev = "open"   /\ DoOpen
     \/ e.ev = "limit"  /\ DoSetLimit(e.k)
